@@ -199,6 +199,11 @@ func driveC14(seed int64, tier, out, replay string) {
 					pool = append(pool, gen.GenOp{Query: doc, OperationName: "DocA", Kind: "multi_operation"}, gen.GenOp{Query: doc, OperationName: "DocB", Kind: "multi_operation"})
 				}
 			}
+			// introspection answered locally from the (possibly cached) plan: the same document with other variable values
+			tq := "query T($n: String!, $d: Boolean) { __type(name: $n) { name kind fields(includeDeprecated: $d) { name } } }"
+			for _, n := range []string{"Query", "Node", "NoSuchType", "Mutation"} {
+				pool = append(pool, gen.GenOp{Query: tq, OperationName: "T", Variables: map[string]interface{}{"n": n, "d": len(n)%2 == 0}, Kind: "introspection_by_variable"})
+			}
 			// ordered pairs that need each other: an operation, then the text its sanitised form would have
 			var pairs [][2]gen.GenOp
 			for _, a := range pool {
